@@ -13,7 +13,7 @@ CLAIMS = {
         "technique": "constant-evaluated table dump (clang APValue) compared with independent oracle tables and the ISA database; switch-coverage lint",
     },
     "C02": {
-        "text": "Decides: every register id packed into an AArch64 instruction word is range-validated on all CFG paths before the word is emitted (143 sites, validators derived from callee bodies); every encoding class is dispatched and every row indexes inside the data array its class reads; register field positions, stored opcode constants (806) and register-run checks agree with db/isa_aarch64.json; every 64-bit immediate is range-tested on all paths before it is narrowed to 32 bits (21 sites) and condition-code immediates are bounded by the CondCode enum; lossy operations on 64-bit immediates (masking, templated narrowing) need a dominating bound; the overloads of the register-id validators accept identical id sets (finite predicate folding); assembler lookup tables equal an architectural oracle; general-purpose register widths allowed per row equal the database notation (379 operand positions).; operands are reinterpreted only as the kind the dominating test established; invalid-marker table entries are tested before they are packed; a memory index id is packed only after its register type was tested; the bound of a shift type fits the architectural class of every row of the case; sibling branches range-test the same shape expression alike; the vector arrangements each row's kVO class accepts exist in the database; FP scalar/vector shapes accepted by pick_fp_opcode and the shapes stored in exact-signature rows exist in the database; an offset scaled by a data-dependent shift is packed only after a lossless test with the same shift; every packed operand's register type was looked at before the word is emitted; a memory operand's base id becomes a label id only under has_base_label(); register width and element size are related on every accepting path of the hand-written FP cases (no .1D); a register index is packed only after the operand's write-back mode was read Does not decide immediate/offset field arithmetic.",
+        "text": "Decides: every register id packed into an AArch64 instruction word is range-validated on all CFG paths before the word is emitted (143 sites, validators derived from callee bodies); every encoding class is dispatched and every row indexes inside the data array its class reads; register field positions, stored opcode constants (806) and register-run checks agree with db/isa_aarch64.json; every 64-bit immediate is range-tested on all paths before it is narrowed to 32 bits (21 sites) and condition-code immediates are bounded by the CondCode enum; lossy operations on 64-bit immediates (masking, templated narrowing) need a dominating bound; the overloads of the register-id validators accept identical id sets (finite predicate folding); assembler lookup tables equal an architectural oracle; general-purpose register widths allowed per row equal the database notation (379 operand positions).; operands are reinterpreted only as the kind the dominating test established; invalid-marker table entries are tested before they are packed; a memory index id is packed only after its register type was tested; the bound of a shift type fits the architectural class of every row of the case; sibling branches range-test the same shape expression alike; the vector arrangements each row's kVO class accepts exist in the database; FP scalar/vector shapes accepted by pick_fp_opcode and the shapes stored in exact-signature rows exist in the database; an offset scaled by a data-dependent shift is packed only after a lossless test with the same shift; every packed operand's register type was looked at before the word is emitted; a memory operand's base id becomes a label id only under has_base_label(); register width and element size are related on every accepting path of the hand-written FP cases (no .1D); a register index is packed only after the operand's write-back mode was read; the three addressing-form templates of a load/store row agree in size / V / opc; within one SIMD case every SizeOp that can be scalar packs the scalar bit if a sibling does; the 32-bit move-wide sequence never gives MOVN the sf bit Does not decide immediate/offset field arithmetic.",
         "design_ref": "DESIGN.md section 3 / C02",
         "note": _TB,
         "technique": "must/may forward dataflow over clang CFG (validate-before-emit), switch coverage, table-vs-database agreement",
@@ -40,7 +40,7 @@ CLAIMS = {
         "technique": "AST extraction of constant setter arguments per (arch branch, convention case) compared with an ABI oracle table",
     },
     "C08": {
-        "text": "Decides capture/replay coverage: every node-creating Builder override is replayed by serialize_to and every node kind dispatched; options/extra register/comment are restored from the node before _emit, operands passed positionally and operands 3..5 refreshed per node; _emit stores everything in the node; the five list-editing functions agree on links, list ends, cursor and dirty flag. The arguments of embed_label / embed_label_delta round-trip positionally through node constructor, field and accessor; the cursor is tested once per removed node on every path; element sizes are computed from the de-abstracted type id in Builder and Assembler alike. The section chain is terminated after re-linking; x86/a64 Compiler/Builder finalize forward the same emitter configuration; a node taken from a label/section/const-pool registry is linked only when known inactive or one-shot. A function that binds its label does so before every successful return; the one-shot state is not read after _grab_state(); serialize_to masks op[0..2] by op_count and takes op_ext from a per-node scratch array; Builder interface functions fail with error codes the Assembler's versions also use.; a resolved abstract type id is the one stored in the node Does not decide byte identity.",
+        "text": "Decides capture/replay coverage: every node-creating Builder override is replayed by serialize_to and every node kind dispatched; options/extra register/comment are restored from the node before _emit, operands passed positionally and operands 3..5 refreshed per node; _emit stores everything in the node; the five list-editing functions agree on links, list ends, cursor and dirty flag. The arguments of embed_label / embed_label_delta round-trip positionally through node constructor, field and accessor; the cursor is tested once per removed node on every path; element sizes are computed from the de-abstracted type id in Builder and Assembler alike. The section chain is terminated after re-linking; x86/a64 Compiler/Builder finalize forward the same emitter configuration; a node taken from a label/section/const-pool registry is linked only when known inactive or one-shot. A function that binds its label does so before every successful return; the one-shot state is not read after _grab_state(); serialize_to masks op[0..2] by op_count and takes op_ext from a per-node scratch array; Builder interface functions fail with error codes the Assembler's versions also use.; a resolved abstract type id is the one stored in the node; a section entered for the first time is appended after last_node(); both emitters compare a Section argument with the holder's section of its id; a new label node is appended at the index equal to its label id (linear proof with a padding-loop summary) Does not decide byte identity.",
         "design_ref": "DESIGN.md section 3 / C08",
         "note": _TB,
         "technique": "call-graph coverage, argument provenance tracing, structural pairing of link assignments",
@@ -77,13 +77,13 @@ CLAIMS = {
     "C13": {
         "text": "Decides clauses C13.a-c: signature/name tables regenerate identically, the packed name index satisfies the binary-search "
                 "preconditions for every id (exhaustive), the validation hook precedes any buffer commit and its failure reaches the error exit; the a64 name scan decodes every id; the x86 validator "
-                "adds the vm flags that match the index register type.; AArch64 vector arrangements accepted per row exist in the database and the database's arrangement lists agree with the Q bit of their opcode; the x86 validator rejects {z} with a memory destination; FP and exact-signature shapes as in C02; each x86 emitter selects the validator by mode inside on_attach; the validator gives a vector-index operand no plain memory flag, compares implicit registers for every operand class that has them, and its per-mode base/index register sets equal the architecture; the validator reads every EVEX-capability flag the register allocator branches on where kInvalidPhysId is still reachable; a decision made from {er} alone is dominated by one that looks at {sae} too Does not decide per-form acceptance agreement.",
+                "adds the vm flags that match the index register type.; AArch64 vector arrangements accepted per row exist in the database and the database's arrangement lists agree with the Q bit of their opcode; the x86 validator rejects {z} with a memory destination; FP and exact-signature shapes as in C02; each x86 emitter selects the validator by mode inside on_attach; the validator gives a vector-index operand no plain memory flag, compares implicit registers for every operand class that has them, and its per-mode base/index register sets equal the architecture; the validator reads every EVEX-capability flag the register allocator branches on where kInvalidPhysId is still reachable; a decision made from {er} alone is dominated by one that looks at {sae} too; merged reg|mem operand signatures are excluded from the memory-base register comparison; the broadcast block of the validator, evaluated for kB16/32/64 and the specified sizes, refuses exactly the wrong sizes; the explicit-counter branch of jecxz/loop accepts the database's counter sizes with the right address-size override Does not decide per-form acceptance agreement.",
         "design_ref": "DESIGN.md section 3 / C13",
         "note": _TB,
         "technique": "regeneration diff, exhaustive decode of dumped name tables, CFG dominance",
     },
     "C14": {
-        "text": "Decides guard/atomicity clauses: label ids validated before dereference; AArch64 register ids validated before packing; emit functions (x86, a64, Builder) reset one-shot state on every exit, commit bytes only on success, never reach an input-validation exit after a fixup/relocation/address-table commit; the shared failure exit resets state before the handler can throw; AArch64 64-bit immediates are range-tested before narrowing and condition codes are bounded by the enum; label-count comparisons are strict; every failing return of an emitter interface function passes through report_error() (flow-sensitive), one-shot state is reset before the handler runs, a label is validated before the first commit of a multi-step function; constant-table subscripts are bounded for arbitrary operands (38 subscripts, upper-bound evaluator) and the opcode MM field stays inside its table; the CodeHolder is used only after `_code` was tested.; Builder::bind and the other registry-node adders link a node only when it is known not to be part of the list; operand reinterpretation, invalid-marker tables, memory index type, shift-type class and sibling range tests as in C02; lossless-shift, register-type and FP-shape rules as in C02; every non-noexcept Builder/Compiler API function reports its errors; Compiler functions grab the one-shot state before every exit; the a64 id range / condition tests read the raw id; BaseEmitter dispatchers that forward to _emit() fail through reset_state() + report_error(); 64-bit immediates are range-tested unsigned or on both sides; no label is registered before the arguments were validated; index write-back mode as in C02 Does not decide that every invalid operand kind is rejected, nor operand-indexed table subscripts.",
+        "text": "Decides guard/atomicity clauses: label ids validated before dereference; AArch64 register ids validated before packing; emit functions (x86, a64, Builder) reset one-shot state on every exit, commit bytes only on success, never reach an input-validation exit after a fixup/relocation/address-table commit; the shared failure exit resets state before the handler can throw; AArch64 64-bit immediates are range-tested before narrowing and condition codes are bounded by the enum; label-count comparisons are strict; every failing return of an emitter interface function passes through report_error() (flow-sensitive), one-shot state is reset before the handler runs, a label is validated before the first commit of a multi-step function; constant-table subscripts are bounded for arbitrary operands (38 subscripts, upper-bound evaluator) and the opcode MM field stays inside its table; the CodeHolder is used only after `_code` was tested.; Builder::bind and the other registry-node adders link a node only when it is known not to be part of the list; operand reinterpretation, invalid-marker tables, memory index type, shift-type class and sibling range tests as in C02; lossless-shift, register-type and FP-shape rules as in C02; every non-noexcept Builder/Compiler API function reports its errors; Compiler functions grab the one-shot state before every exit; the a64 id range / condition tests read the raw id; BaseEmitter dispatchers that forward to _emit() fail through reset_state() + report_error(); 64-bit immediates are range-tested unsigned or on both sides; no label is registered before the arguments were validated; index write-back mode as in C02; in the two _emit functions every reporting call is a callee that resets first or is reached after reset_state(); log lines are written only after the last refusing step; Section identity as in C08 Does not decide that every invalid operand kind is rejected, nor operand-indexed table subscripts.",
         "design_ref": "DESIGN.md section 3 / C14",
         "note": _TB,
         "technique": "must-set / reachability dataflow on clang CFG, sibling-guard comparison, index-range vs table-length check",
